@@ -15,6 +15,11 @@ CONSTANTS
   RawMags <- RawMagsFull
   StepUsesDoubleInv = FALSE
   DurationWraps = FALSE
+  Jumps <- JumpsFull
+  StepAt = {1, 2, 3}
+  MaxInDo = 0
+  ReadsNowFirst = FALSE
+  StepDen = 4
 VIEW ViewCore
 INVARIANTS TypeOK
 PROPERTIES C19Step LemmaStep
